@@ -84,6 +84,11 @@ HARNESSES = [
         ("k_capi_tinfl_mem_to_heap", ["C17"], ["tinfl_decompress_mem_to_heap", "miniz_def_alloc_func", "miniz_def_realloc_func", "miniz_def_free_func"]),
         ("k_capi_tinfl_decompress", ["C17", "C06"], ["tinfl_decompress"]),
         ("k_capi_tinfl_mem_to_mem", ["C17"], ["tinfl_decompress_mem_to_mem"]),
+        ("k_capi_tdefl_init", ["C17"], ["tdefl_init", "Compressor::flags"]),
+        ("k_capi_tdefl_compress", ["C17"], ["tdefl_compress", "tdefl_flush -> TDEFLFlush", "TDEFLStatus -> tdefl_status"]),
+        ("k_capi_output_buffer_putter_fixed", ["C17"], ["output_buffer_putter (fixed-capacity sink of tdefl_compress_mem_to_mem)"]),
+        ("k_capi_tdefl_mem_to_mem", ["C17"], ["tdefl_compress_mem_to_mem", "output_buffer_putter"]),
+        ("k_capi_tdefl_mem_to_heap", ["C17"], ["tdefl_compress_mem_to_heap", "output_buffer_putter (growing sink)", "miniz_def_realloc_func"]),
       )],
     H("k_decode_huffman_code_overflow_tree", "K-slowdecode", ["C03", "C04", "C05", "C06", "C07"], cost=60, timeout=900,
       fns=["decode_huffman_code", "HuffmanTable::fast_lookup", "HuffmanTable::tree_lookup", "read_byte", "read_u16_le", "end_of_input"],
